@@ -71,7 +71,7 @@ class AbstractPathModelDAG(ABC):
         length_attr: str = None,
         optimization_options: dict = None,
         solver_options: dict = {},
-        solve_statistics: dict = {},
+        solve_statistics: dict = None,
     ):
         """
         Parameters
@@ -191,7 +191,8 @@ class AbstractPathModelDAG(ABC):
                     utils.logger.error(f"{__name__}: If subpath_constraints_coverage_length is set, you cannot set also subpath_constraints_coverage.")
                     raise ValueError("If subpath_constraints_coverage_length is set, you cannot set also subpath_constraints_coverage.")
 
-        self.solve_statistics = solve_statistics
+        # (a fresh dict per model unless the subclass passes its own: a mutable default would be shared by all models)
+        self.solve_statistics = solve_statistics if solve_statistics is not None else {}
         self.edge_vars = {}
         self.edge_vars_sol = {}
         self.subpaths_vars = {}
